@@ -8,7 +8,10 @@
         Mux would answer, independent of every earlier or concurrent request;
       - W.Status is 0 at handler entry;
       - GetID() is [prefix ++ base36(t)] with t >= 1, different from every id seen before in the
-        history, the same at handler exit, and over the whole history t <= number of requests.
+        history, and over the whole history t <= number of requests;
+      - constant during the request: at handler exit and in the relay after the handler, who / every
+        RouteParam / RouteParamAny / GetID are what they were at entry, and W.Status is what the
+        request itself last made it (WriteHeader code; Flush: 200 if it was 0).
     MODEL: the LTS of Model/StorePool.v is run on the same events (sync.Pool.Get modelled as
     "most recently Put Store, else New") and must show the same observations. *)
 From Coq Require Import List NArith Bool Arith.
@@ -19,9 +22,12 @@ Record cobs := { co_who : who; co_status : N; co_id : list N; co_any : list N; c
 
 Inductive ev :=
 | EvRegister (p m : list N)
-| EvBegin (k : nat) (path method : list N) (o : cobs)
-| EvWrite (k : nat) (code : N)
-| EvExit (k : nat) (how : exit_kind) (id_exit : list N).
+| EvBegin (k : nat) (path method : list N) (o : cobs)   (* everything read at handler entry *)
+| EvWrite (k : nat) (code : N)                          (* the request's handler or relay set W.Status *)
+| EvFlush (k : nat)                                     (* the handler called W.Flush() *)
+| EvExit (k : nat) (o : cobs)                           (* everything read again at handler exit *)
+| EvAfter (k : nat) (how : exit_kind) (o : cobs).       (* ... and again by the relay after the handler returned or
+                                                           while its panic unwinds; then ServeHTTP resets / drops the Store *)
 
 (** ** ids *)
 Definition undigit (c : N) : option N :=
@@ -51,20 +57,30 @@ Record rstate := {
   r_model_ok : bool;                    (* the model could follow every event so far and agreed *)
   r_routes : list (list N * list N);    (* specification: routes registered so far *)
   r_tickets : list N;                   (* tickets of all ids seen so far *)
-  r_entry_ids : list (nat * list N);    (* id at entry of the requests in flight *)
+  r_entry : list (nat * cobs);          (* requests in flight: what they read at entry, status updated by their own writes *)
   r_begins : N                          (* number of requests begun *)
 }.
 
-Fixpoint assoc_nat (k : nat) (l : list (nat * list N)) : option (list N) :=
+Fixpoint assoc_nat (k : nat) (l : list (nat * cobs)) : option cobs :=
   match l with
   | [] => None
   | (k', v) :: r => if Nat.eqb k' k then Some v else assoc_nat k r
   end.
-Fixpoint remove_nat (k : nat) (l : list (nat * list N)) : list (nat * list N) :=
+Fixpoint remove_nat (k : nat) (l : list (nat * cobs)) : list (nat * cobs) :=
   match l with
   | [] => []
   | (k', v) :: r => if Nat.eqb k' k then r else (k', v) :: remove_nat k r
   end.
+Fixpoint update_nat (k : nat) (g : cobs -> cobs) (l : list (nat * cobs)) : list (nat * cobs) :=
+  match l with
+  | [] => []
+  | (k', v) :: r => if Nat.eqb k' k then (k', g v) :: r else (k', v) :: update_nat k g r
+  end.
+Definition set_status (c : N) (o : cobs) : cobs :=
+  {| co_who := co_who o; co_status := c; co_id := co_id o; co_any := co_any o; co_vals := co_vals o |}.
+Definition cobs_eqb (a b : cobs) : bool :=
+  who_eqb (co_who a) (co_who b) && (co_status a =? co_status b)%N && bytes_eqb (co_id a) (co_id b)
+  && bytes_eqb (co_any a) (co_any b) && list_bytes_eqb (co_vals a) (co_vals b).
 
 (** sync.Pool.Get in the replay: the most recently Put Store if there is one *)
 Definition lifo_choice (m : mux) : option nat :=
@@ -105,13 +121,17 @@ Definition model_step (s : rstate) (l : label) (after : mux -> bool) : mux * boo
   else (r_mux s, false).
 
 (** one event: [None] = the specification fails here *)
+Definition mk (s : rstate) (m' : mux) (ok : bool) (entry : list (nat * cobs)) : rstate :=
+  {| r_mux := m'; r_model_ok := ok; r_routes := r_routes s; r_tickets := r_tickets s;
+     r_entry := entry; r_begins := r_begins s |}.
+
 Definition check_ev (prefix : list N) (sequential : bool) (names : list (list N)) (s : rstate) (e : ev)
   : option rstate :=
   match e with
   | EvRegister p m =>
     let (m', ok) := model_step s (LRegister p m) (fun _ => true) in
     Some {| r_mux := m'; r_model_ok := ok; r_routes := r_routes s ++ [(p, m)]; r_tickets := r_tickets s;
-            r_entry_ids := r_entry_ids s; r_begins := r_begins s |}
+            r_entry := r_entry s; r_begins := r_begins s |}
   | EvBegin k path method o =>
     let expect := spec_obs (r_routes s) names path method in
     match id_ticket prefix (co_id o) with
@@ -123,25 +143,39 @@ Definition check_ev (prefix : list N) (sequential : bool) (names : list (list N)
         let (m', ok) := model_step s (LBegin k (lifo_choice (r_mux s)) path method)
                                    (fun m' => model_agrees sequential m' k names o) in
         Some {| r_mux := m'; r_model_ok := ok; r_routes := r_routes s; r_tickets := t :: r_tickets s;
-                r_entry_ids := (k, co_id o) :: r_entry_ids s; r_begins := (r_begins s + 1)%N |}
+                r_entry := (k, o) :: r_entry s; r_begins := (r_begins s + 1)%N |}
       else None
     | None => None
     end
   | EvWrite k code =>
-    let (m', ok) := model_step s (LWriteHeader k code) (fun _ => true) in
-    Some {| r_mux := m'; r_model_ok := ok; r_routes := r_routes s; r_tickets := r_tickets s;
-            r_entry_ids := r_entry_ids s; r_begins := r_begins s |}
-  | EvExit k how id_exit =>
-    match assoc_nat k (r_entry_ids s) with
-    | Some id0 =>
-      if bytes_eqb id0 id_exit then
-        let idok := match observe (r_mux s) k [] with
-                    | Some mo => if sequential then bytes_eqb (ob_id mo) id_exit else true
-                    | None => false
-                    end in
-        let (m', ok) := model_step s (LEnd k how) (fun _ => idok) in
-        Some {| r_mux := m'; r_model_ok := ok; r_routes := r_routes s; r_tickets := r_tickets s;
-                r_entry_ids := remove_nat k (r_entry_ids s); r_begins := r_begins s |}
+    match assoc_nat k (r_entry s) with
+    | Some _ =>
+      let (m', ok) := model_step s (LWrite k (WriteHeader code)) (fun _ => true) in
+      Some (mk s m' ok (update_nat k (set_status code) (r_entry s)))
+    | None => None
+    end
+  | EvFlush k =>
+    match assoc_nat k (r_entry s) with
+    | Some _ =>
+      let (m', ok) := model_step s (LWrite k Flush) (fun _ => true) in
+      Some (mk s m' ok (update_nat k (fun o => set_status (apply_wop Flush (co_status o)) o) (r_entry s)))
+    | None => None
+    end
+  | EvExit k o =>
+    match assoc_nat k (r_entry s) with
+    | Some o0 =>
+      if cobs_eqb o0 o then
+        Some (mk s (r_mux s) (r_model_ok s && model_agrees sequential (r_mux s) k names o) (r_entry s))
+      else None
+    | None => None
+    end
+  | EvAfter k how o =>
+    match assoc_nat k (r_entry s) with
+    | Some o0 =>
+      if cobs_eqb o0 o then
+        let agrees := model_agrees sequential (r_mux s) k names o in
+        let (m', ok) := model_step s (LEnd k how) (fun _ => agrees) in
+        Some (mk s m' ok (remove_nat k (r_entry s)))
       else None
     | None => None
     end
@@ -166,6 +200,6 @@ Definition check_history (prefix : list N) (sequential : bool) (names : list (li
   : verdict * nat :=
   check_evs prefix sequential names
             {| r_mux := new_mux prefix; r_model_ok := true; r_routes := []; r_tickets := [];
-               r_entry_ids := []; r_begins := 0%N |} evs 0.
+               r_entry := []; r_begins := 0%N |} evs 0.
 
 Definition history_ok (v : verdict * nat) : bool := match fst v with VOk => true | _ => false end.
